@@ -158,7 +158,7 @@ def bounded(payload):
                 if r:
                     return {'found': True, 'input': {'vertices': verts, 'bins_per_side': B, 'reverse': rev}, 'observed': r, 'expected': 'Inv and brute-force agreement', 'tried': tried}
                 configs.add((B, rev, len(verts)))
-                if prev is not None and tried % 4 == 0 and prev[1]:
+                if prev is not None and tried % 8 == 0 and prev[1]:
                     other = prev[0]
                     oxs = [v[0][0] for v in other] + ([v[1][0] for v in other] if rev else [])
                     oys = [v[0][1] for v in other] + ([v[1][1] for v in other] if rev else [])
@@ -173,7 +173,7 @@ def bounded(payload):
                                     'observed': r, 'expected': 'Inv and brute-force agreement for each of two live indexes', 'tried': tried}
         prev = (verts, True)
     return {'found': False, 'tried': tried, 'distinct': len(configs),
-            'bound': f'{len(cases)} vertex sets (1-2 paths exhaustive on a 4x4 lattice subsample, 3-7 paths random) x bins per side x reverse; each with a full random removal history and 9 queries per step; every 4th configuration additionally as TWO live indexes with interleaved removals and queries'}
+            'bound': f'{len(cases)} vertex sets (1-2 paths exhaustive on a 4x4 lattice subsample, 3-7 paths random) x bins per side x reverse; each with a full random removal history and 9 queries per step; every 8th configuration additionally as TWO live indexes with interleaved removals and queries'}
 
 
 def search(payload):
